@@ -1,8 +1,6 @@
 package main
 
 import (
-	"github.com/mycoria/mycoria/storage"
-	"strings"
 	"bytes"
 	"context"
 	"crypto/ed25519"
@@ -11,9 +9,11 @@ import (
 	"encoding/hex"
 	"errors"
 	"fmt"
+	"github.com/mycoria/mycoria/storage"
 	"io"
 	"net"
 	"net/netip"
+	"strings"
 	"time"
 
 	"github.com/fxamacker/cbor/v2"
@@ -670,7 +670,7 @@ func runC01(c *Ctx) error {
 		{{"fd00::/8"}, {"fd80::/9"}},
 		{{"fd00::/9", "fd80::/9"}, {"fd40::/10"}},
 		{{"fd30::/12", "fd50::/12"}, {"fd30:8000::/17"}},
-		{{"fc00::/7"}, {}},          // partly outside fd00::/8
+		{{"fc00::/7"}, {}},           // partly outside fd00::/8
 		{{"f000::/4"}, {"fd80::/9"}}, // mostly outside
 	}
 	for i, n := 0, c.Pick(30, 200); i < n; i++ {
